@@ -71,6 +71,8 @@ def run(tier):
 
     P.hooks.append(try_each)
     P.run()
+    from harness import probes
+    probes.discriminator_probe(R, {'dispatch'})
     order_probe(R)
     bad_model = P.check("C13_model", C_MODEL)
     if bad_model and not R.violations:
